@@ -285,6 +285,9 @@ struct Engine {
         engine_err = 1; vac += ops[oi].name + ":" + ops[oi].classes[k] + " "; }
     }
 
+    // an op that ran but never met a non-trivial case checked nothing
+    for (size_t oi = 0; oi < ops.size(); ++oi) if (stats[oi].evaluations > 0 && stats[oi].nontrivial == 0) {
+      std::fprintf(stderr, "glmx: ENGINE ERROR: op %s evaluated %" PRIu64 " cases but none was inside its domain (vacuous)\n", ops[oi].name.c_str(), stats[oi].evaluations); engine_err = 1; vac += ops[oi].name + ":no-nontrivial-case "; }
     double wall = elapsed();
     if (!out.empty()) {
       FILE* f = std::fopen(out.c_str(), "w");
